@@ -66,6 +66,10 @@ CLAIMED = {
           "Generated-input search: one P per cue with exact rational times, payload lines, character references, per-character markup (b/i/u/c/lang/v/ruby), inline timestamps as absolute begins, region geometry inside the root with the anchoring the WebVTT rendering rules give, region sharing; the VTT writer's output over styled documents is re-read and compared with what a strict parser reads.",
           "Trusted: vt/gen_vtt.py expectations (self-tested, grammar re-validated per case), vt/cueparse.py. Known findings: ruby inside other tags / markup inside ruby raise (model restricts ruby to p). Colours of custom STYLE classes are not compared (STYLE blocks are skipped by design).",
           "DESIGN.md C11"),
+  "C16": ("Hypothesis documents x LCD configurations: post-condition predicates on the filtered document, reference text timeline and computed styles before/after, idempotence",
+          "Generated-input search: no animation, only allowed styles / initial values, regions exactly at the safe area, merged regions and redirected references, registered region objects, text timeline unchanged for documents without hiding styles, configured colour / background / alignment as computed by the reference interpreter, second application is a no-op, filter does not fail (positioned regions, no body).",
+          "Trusted: vt/ref_isd.py for timelines and computed styles. Known finding: conflicting nested region references become visible when regions merge (excluded by construction in the main parts).",
+          "DESIGN.md C16"),
 }
 NOT_APPLICABLE = {}
 
